@@ -27,7 +27,8 @@ DagClauses(e, n) ==
       nR == IF live THEN One(NMatch(d.def.restart, e.bd)) ELSE 0
       okStart == Count(d.startAns, LAMBDA a : StartPermitted(a, e.m))
       okStop  == Count(d.stopAns, LAMBDA a : StopPermitted(a))
-  IN (IF d.invStart < nS THEN {"C09_ScheduledStartNotAttempted"} ELSE {})
+  IN IF d.unspec THEN {} ELSE    \* its file was overwritten with a malformed text: what the daemon holds for it is not specified
+     (IF d.invStart < nS THEN {"C09_ScheduledStartNotAttempted"} ELSE {})
      \cup (IF d.invStart > nS THEN {"C09_UnscheduledStartAttempted"} ELSE {})
      \cup (IF d.invStop # nT THEN {"C09_StopScheduleWrong"} ELSE {})
      \cup (IF d.invRestart # nR \/ d.restarts # d.invRestart THEN {"C09_RestartScheduleWrong"} ELSE {})
@@ -53,7 +54,9 @@ Tick == /\ E.ev = "Tick"
         /\ UNCHANGED <<nscen, c>>
 Hung == /\ E.ev = "Hung" /\ viol' = viol \cup {"C09_TickNeverReturns"} /\ UNCHANGED <<started, nscen, c>>
 End == /\ E.ev = "End" /\ UNCHANGED <<viol, started, nscen, c>>
-       /\ PrintT("VERDICT " \o ToJson([scen |-> E.scen, viol |-> viol, delayed |-> c.delayed]))
+       \* a scenario in which the daemon's watcher had to fall back to polling (no inotify instance left) is not judged
+       /\ PrintT("VERDICT " \o ToJson([scen |-> E.scen, viol |-> IF E.pollFallback THEN {} ELSE viol, delayed |-> c.delayed,
+                                        skipped |-> E.pollFallback]))
 Next == l <= Len(Trace) /\ l' = l + 1 /\ (Reset \/ Tick \/ Hung \/ End)
 Spec == Init /\ [][Next]_<<l, viol, started, nscen, c>>
 Emit == (l = Len(Trace) + 1) => PrintT("CONSUMED " \o ToString(Len(Trace)) \o " scenarios " \o ToString(nscen))
